@@ -1463,25 +1463,28 @@ pub async fn quiesce(env: &mut Env, w: &Arc<World>, kill: bool, max_steps: u64) 
 
 /// Let the system go quiet without any further input: run every runnable task, let virtual
 /// time pass, repeat until nothing happens any more.
-pub async fn settle(env: &mut Env) {
+pub async fn settle(env: &mut Env) -> bool {
     settle_with(env, |_, _| {}).await
 }
 
-pub async fn settle_with(env: &mut Env, mut after_step: impl FnMut(u64, u64)) {
+/// Returns false when the system did not go quiet within the budget (steps or 200 rounds of
+/// 50 ms virtual time): the history is then incomplete and completeness oracles must not judge it.
+pub async fn settle_with(env: &mut Env, mut after_step: impl FnMut(u64, u64)) -> bool {
     let gate = env.gate.clone();
     for _ in 0..200 {
         let before = (trace_len(), gate.step());
         if drive(&env.gate, &mut env.sched, 20_000, || gate.runnable().is_empty(), &mut after_step).await == DriveEnd::Budget {
-            return;
+            return false;
         }
         tokio::time::sleep(Duration::from_millis(50)).await;
         if drive(&env.gate, &mut env.sched, 20_000, || gate.runnable().is_empty(), &mut after_step).await == DriveEnd::Budget {
-            return;
+            return false;
         }
         if (trace_len(), gate.step()) == before {
-            break;
+            return true;
         }
     }
+    false
 }
 
 /// Samples every known cell's status (call after each step); logs changes, reports regressions
@@ -1598,10 +1601,16 @@ pub fn exec_scenario(
                 }
             }
         }
+        let mut end_main = end_main;
         if opts.settle && end_main == DriveEnd::Done {
             let w3 = w.clone();
             let ps = per_step_cell.clone();
-            settle_with(&mut env, move |s, t| (ps.borrow_mut())(&w3, s, t)).await;
+            if !settle_with(&mut env, move |s, t| (ps.borrow_mut())(&w3, s, t)).await {
+                // still busy (e.g. a slow handler working through a long backlog): the history is
+                // incomplete, which every part reports as inconclusive
+                log(Ev::Note("settle: not quiet within the budget".into()));
+                end_main = DriveEnd::Budget;
+            }
         }
         let probe_out = probe(&w);
         let cut = trace_len();
